@@ -255,7 +255,7 @@ CHECKS = {
         technique='scenario-based property testing (rapid) against a reference MTProto server with search-forced numeric corners',
         rule=('case = key-exchange scenario (RSA-2048 key from a pool of 14 with public exponents 3, 17, 257, 49153, 65537, 2^24+43, 2^31-1; server_nonce, p<q primes, pq padding, g, server secret a, padding seed, optionally injected client nonce/new_nonce/b). '
               'Every completed run is non-trivial; classes record which field the server actually saw starting with zero bytes; distinct by hash of the scenario.'),
-        must_hit=['rsa-public-exponent:1-bytes', 'rsa-public-exponent:2-bytes', 'rsa-public-exponent:3-bytes', 'rsa-public-exponent:4-bytes', 'server-clock-after-2038', 'reply-in-two-tcp-segments', 'second-attempt-after-refused-connection', 'fingerprints:known-key-first', 'fingerprints:known-key-last', 'fingerprints:known-key-in-the-middle', 'corner:nonce', 'corner:server_nonce', 'corner:new_nonce', 'corner:new_nonce_hash1', 'corner:rsa_ciphertext', 'corner:g_a', 'corner:g_b', 'corner:g_ab',
+        must_hit=['rsa-public-exponent:1-bytes', 'rsa-public-exponent:2-bytes', 'rsa-public-exponent:3-bytes', 'rsa-public-exponent:4-bytes', 'server-clock-after-2038', 'reply-in-two-tcp-segments', 'second-attempt-after-refused-connection', 'fingerprints:known-key-first', 'fingerprints:known-key-last', 'fingerprints:known-key-in-the-middle', 'corner:nonce', 'corner:server_nonce', 'corner:new_nonce', 'corner:new_nonce_hash1', 'corner:rsa_ciphertext', 'corner:g_a', 'corner:g_b', 'corner:g_ab', 'corner:g_b:2', 'corner:g_a:2', 'corner:g_ab:2',
                   'draws:client-own', 'draws:injected', 'pq:above-2^63', 'pq:small', 'verdict:ok'],
         assumptions=['the reference server is conformant: it follows core.telegram.org/mtproto/auth_key with fixed-width values (self-consistent: it completes with the fixed client)',
                      'DH group = Telegram\'s 2048-bit safe prime', 'a connect that the server side had to abandon (recorded reason) is judged by that reason, never by elapsed time'],
@@ -273,7 +273,7 @@ CHECKS = {
         technique='fault enumeration over a generated baseline exchange against a scripted reference server (rapid + enumerated fault catalogue)',
         rule=('case = (baseline exchange, fault = step x field x corruption x bit position). Every executed fault is non-trivial; distinct by hash of the scenario. '
               'Oracle: CreateConnection returns a non-nil error (a panic is not an error return), no session file afterwards, no encrypted frame reaches the server, child alive.'),
-        must_hit=['fault:resPQ.kind:other-object', 'fault:dhParams.kind:other-object', 'fault:dhGen.kind:other-object', 'baseline:zero-server_nonce', 'baseline:zero-nonce', 'fault:rpc_error-naming-a-configured-data-centre', 'fault:resPQ.nonce:previous-exchange', 'fault:resPQ.kind:rpc_error', 'fault:dhParams.kind:rpc_error', 'fault:dhGen.kind:rpc_error', 'step:resPQ', 'step:dhParams', 'step:dhInner', 'step:dhGen', 'fault:resPQ.fingerprints:other-clients-key', 'fault:resPQ.fingerprints:empty', 'fault:dhInner.sha1:prefix-flip', 'fault:dhInner.sha1:content-flip',
+        must_hit=['fault:dhGen.kind:gen_retry-then-ok', 'fault:resPQ.kind:other-object', 'fault:dhParams.kind:other-object', 'fault:dhGen.kind:other-object', 'baseline:zero-server_nonce', 'baseline:zero-nonce', 'fault:rpc_error-naming-a-configured-data-centre', 'fault:resPQ.nonce:previous-exchange', 'fault:resPQ.kind:rpc_error', 'fault:dhParams.kind:rpc_error', 'fault:dhGen.kind:rpc_error', 'step:resPQ', 'step:dhParams', 'step:dhInner', 'step:dhGen', 'fault:resPQ.fingerprints:other-clients-key', 'fault:resPQ.fingerprints:empty', 'fault:dhInner.sha1:prefix-flip', 'fault:dhInner.sha1:content-flip',
                   'fault:dhGen.new_nonce_hash:flip', 'fault:dhGen.kind:gen_retry', 'fault:dhGen.kind:gen_fail', 'fault:dhParams.kind:params_fail', 'aftermath sent: new-session', 'aftermath sent: bad-salt', 'aftermath sent: update', 'aftermath sent: close', 'aftermath sent: app-reconnect', 'verdict:ok'],
         fold={'fault:': ('fault_classes_covered', 60)},
         assumptions=['not generated because the statement does not list them: a different server_nonce in resPQ (the server chooses it), corrupted pq, g, dh_prime, g_a, server_time'],
